@@ -381,14 +381,14 @@ pub fn run(ctx: &Ctx, r: &mut Report) {
 	let mut k = 0u64;
 	for d in reg::indicators() {
 		let is_watched = watched.contains(&d.name);
-		let ncfg = if is_watched { ctx.pick(40, 400) } else { ctx.pick(6, 40) };
+		let ncfg = if is_watched { ctx.pick(80, 400) } else { ctx.pick(12, 40) };
 		let cfgs = icfg::configs(&d, ncfg, ctx.seed);
 		for cfg in cfgs.iter() {
 			let cfgv = cfg.ser().unwrap_or(Value::Null);
 			let n = max_period(&cfgv);
 			let classes: &[usize] = if is_watched { &[1, 2, 0, 3, 7] } else { &[1, 2] };
 			for &class in classes {
-				let reps = if is_watched { ctx.pick(3, 10) } else { 1 };
+				let reps = if is_watched { ctx.pick(6, 10) } else { 2 };
 				for rep in 0..reps {
 					k += 1;
 					if !ctx.mine(k) {
